@@ -409,7 +409,8 @@ impl NsGen {
 
 fn random_history(id: String, seed: u64, cat: &Catalogue, rng: &mut SplitMix64, sink: &mut Sink) {
     let vol = cat.pick(rng);
-    let cfg = Cfg::new(!rng.chance(1, 10), rng.chance(1, 10), ClockMode::Const);
+    let mut cfg = Cfg::new(!rng.chance(1, 10), rng.chance(1, 10), ClockMode::Const);
+    cfg.optorder = optorder_of(&id);
     let cx = Ctx::new(id, "ns", seed, vol, cfg);
     let mut g = NsGen {
         cx,
